@@ -415,8 +415,8 @@ func nativeTableToResp3(val map[string]any) (m respMap) {
 func resp3MapToResp2(val respMap) (a respArray) {
 	a = make([]respValue, 0, 2*len(val.m))
 	for _, rk := range val.order {
-		name := fmt.Sprintf("%s", rk.data)
-		a = append(a, nativeValueToResp(name))
+		// the key keeps its type (an integer key stays an integer), like any other element
+		a = append(a, resp3To2(rk))
 
 		rv := val.mustGet(rk)
 		a = append(a, nativeValueToResp(resp3To2(rv)))
